@@ -55,6 +55,11 @@ CLAIMS['C10'] = ('proof',
     'table\'s keys (Verus, unbounded): on monotone insert histories the invariant "active => no stored key exceeds last_pk" is preserved and the skip is sound for keys above last_pk; the unrestricted clauses fail and are '
     'a recorded, CLI-reproduced finding (duplicate key via INSERT ... SELECT). UNIQUE/NOT NULL/CHECK enforcement, UPDATE validation, REPLACE and ALTER are not under contract.',
     _B_NOTE, 'contract-based deductive verification: Verus on mechanically extracted functions with a ghost key set', 'DESIGN.md 5/C10')
+CLAIMS['C14'] = ('proof',
+    'Kernel contracts only: the savepoint bookkeeping of TransactionManager (record_change, create_savepoint, rollback_to_savepoint, release_savepoint) is proved against the savepoint stack of the statement '
+    '(Verus, unbounded): rollback to s returns exactly the changes recorded after s, cuts the log back to s, keeps s alive, destroys later savepoints, resolves a duplicated name to the most recent savepoint; RELEASE '
+    'removes only that savepoint and touches no change; no panic. That every DML executor records its changes (UPDATE/DELETE do not - see DESIGN.md) and that undo_change restores table contents are not covered.',
+    _B_NOTE, 'contract-based deductive verification: Verus on mechanically extracted functions', 'DESIGN.md 5/C14')
 NOT_APPLICABLE = {
     'C04': 'concurrency/rayon scheduling: Kani has no threads, Verus needs permission-typed code; the determinism-relevant comparator laws are claimed under C21/C08',
     'C05': 'every anchor is an AST-to-plan transformation or a join operator over Database/evaluator state: AST walks do not finish in CBMC and the code is outside the Verus subset',
